@@ -466,11 +466,12 @@ fn damage(h: &H, idx: u64, rng: &mut Rng) {
             // structured: sub grid names and parents
             let subs = random_tree(rng);
             let mut subs2 = subs.clone();
-            let variant = rng.below(8);
+            // (the reserved name gets a larger share: it only shows when a query lands in that grid)
+            let variant = if rng.chance(0.25) { 5 } else { rng.below(8) };
             match variant {
                 5 => {
                     // the name reserved for "no parent" used as a sub grid name
-                    let k = rng.below(subs2.len());
+                    let k = if rng.chance(0.6) { 0 } else { rng.below(subs2.len()) };
                     let old = subs2[k].name.clone();
                     subs2[k].name = "NONE".into();
                     if rng.chance(0.5) {
